@@ -271,6 +271,18 @@ func init() {
 				c.Run.Sample(map[string]any{"pattern": pats[i], "rule": pats[i] + "$domain=example.org"})
 			}
 		})
+		// collision layer: patterns whose texts (and whose compiled expressions'
+		// leading parts) have equal 32-bit hashes, prepared one after the other in
+		// this process: a matcher shared between two rules by a hash key would show
+		wA, wB := enum.CollidingWindows()
+		for _, suf := range []string{"", "^", "*x", "/", "|"} {
+			for _, pre := range []string{"", "|", "||"} {
+				for _, mc := range []bool{false, true, false} {
+					c03CheckPattern(c, pre+wA+suf, mc, cnt, alphabet)
+					c03CheckPattern(c, pre+wB+suf, mc, cnt, alphabet)
+				}
+			}
+		}
 		// corpus layer: the basic patterns of the bundled real-world lists
 		stride := 25
 		if c.Thorough() {
